@@ -587,6 +587,66 @@ def main():
                     named.append(op)
         elem_calls.append((mod, named))
 
+    # ---- the read path: where element rows are read, and where content-bearing indexes are probed -----------------
+    # Call graph over kql/*.rs, meta/*.rs, projection/*.rs, capsule/mod.rs (export). A site inside a private fn is attributed
+    # to the pub / pub(crate) functions that reach it through private fns only, so extracting or inlining a private helper
+    # does not change the facts.
+    read_files = list(modules["kql"]) + list(modules["meta"]) + list(modules["projection"]) + ["capsule/mod.rs"]
+    elem_coll = r"\.\s*(?:elements\s*\(|concepts\s*\(\)|propositions\s*\(\)|assertions\s*\(\)|evidence\s*\(\)|activities\s*\(\)|element_versions\s*\(\))"
+    raw_names = [r"\.\s*get_element\s*\(", r"\.\s*element_at\s*\(", r"\.\s*elements_at\s*\(", r"\.\s*find_concept\s*\(", r"\.\s*find_concept_by_key\s*\(",
+                 r"\.\s*find_proposition\s*\(", r"\bview::render\s*\("]
+    probe_names = [r"\.\s*query_all_ids\s*\(", r"\.\s*query_ids\s*\(", r"\.\s*query_last_ids\s*\(", r"\.\s*search_ids\s*\(", r"\.\s*search_advanced\s*\(", r"\.\s*search\s*\(\s*Query"]
+    fns = {}   # "file::name" -> (public?, body)
+    for f in read_files:
+        src_f = cut_tests(strip_comments_keep_strings(read_source(repo, nx + f), blank=True))
+        for mm in re.finditer(r"((?:pub(?:\s*\([^)]*\))?\s+)?)(?:async\s+)?fn\s+(\w+)\s*(?:<[^>{}()]*>)?\s*\(", src_f):
+            try:
+                body = block_after(src_f, mm.end())
+            except SystemExit:
+                raise
+            except Exception:
+                continue
+            fns[f + "::" + mm.group(2)] = (bool(mm.group(1).strip()), body)
+    by_name = {}
+    for k in fns:
+        by_name.setdefault(k.split("::")[1], []).append(k)
+    callers = {k: set() for k in fns}
+    for k, (_, body) in fns.items():
+        f = k.split("::")[0]
+        for name, targets in by_name.items():
+            if re.search(r"(?<![\w])" + name + r"\s*(?:::<[^>()]*>)?\(", body):
+                tg = [t for t in targets if t.startswith(f + "::")] or targets
+                for t in tg:
+                    if t != k:
+                        callers[t].add(k)
+    def owners(k, seen=()):
+        if fns[k][0] or k in seen:
+            return {k} if fns[k][0] else set()
+        out_ = set()
+        for c in callers[k]:
+            out_ |= owners(c, seen + (k,))
+        return out_ or {k + " (private, never called)"}
+    raw_owner_set, probe_owner_set = set(), set()
+    for k, (_, body) in fns.items():
+        raw_here = any(re.search(rx, body) for rx in raw_names) or (re.search(r"\.\s*get_as\s*(?:::<[^>()]*>)?\(|\.\s*get\s*\(\s*\w+\s*\)\s*\.await", body) and re.search(elem_coll, body))
+        if raw_here:
+            raw_owner_set |= owners(k)
+        if any(re.search(rx, body) for rx in probe_names) and (re.search(elem_coll, body) or re.search(r"get_bm25_index\s*\(", body)):
+            probe_owner_set |= owners(k)
+    raw_owners, probe_owners = sorted(raw_owner_set), sorted(probe_owner_set)
+    gate_fns_list = ["kql/mod.rs::admit", "kql/mod.rs::candidates", "kql/mod.rs::load"]
+    kqlmod = cut_tests(strip_comments_keep_strings(read_source(repo, nx + "kql/mod.rs"), blank=True))
+    g_load, g_cand, g_admit = inlined_body(kqlmod, "load"), inlined_body(kqlmod, "candidates"), inlined_body(kqlmod, "admit")
+    adm = [r"\badmit\s*\(", r"/\*admit\*/"]
+    def before(text, first, then):
+        a_, b_ = first_pos(text, first), first_pos(text, then)
+        return 0 <= a_ < b_
+    gate_admits = (before(g_load, [r"\.\s*get_element\s*\(", r"\.\s*element_at\s*\("], adm)
+                   and before(g_cand, r"\.\s*elements_at\s*\(", adm)
+                   and re.search(r"\bmay_read\s*\([^;]*?\)\s*\?", g_admit, re.S) is not None
+                   and before(g_admit, r"\bmay_read\s*\(", r"\bview::render\s*\(")
+                   and before(g_admit, r"\bview::render\s*\(", r"\bredact::apply\s*\("))
+
     # ---- emit -----------------------------------------------------------------------------
     L = []
     A = L.append
@@ -669,7 +729,22 @@ def main():
     A(",\n".join(f"  ({lean_str(mod)}, {lean_list(ns)})" for mod, ns in elem_calls))
     A("]")
     A("")
+    A("/-! ### The read path -/")
+    A("/-- the pub / pub(crate) functions of kql/ meta/ projection/ capsule(export) that read element rows (directly or through private helpers) -/")
+    A(f"def rawElementReadOwners : List String := {lean_list(raw_owners)}")
+    A("/-- the read choke point: `Context::load`, `Context::candidates` (historical seeding) and `Context::admit` itself -/")
+    A(f"def readGateFunctions : List String := {lean_list(gate_fns_list)}")
+    A("/-- in `load` and `candidates` every row read is handed to `admit`; `admit` asks `may_read(..)?` before it renders, and redacts what it rendered -/")
+    A(f"def gateAdmitsAfterEveryRead : Bool := {'true' if gate_admits else 'false'}")
+    A("/-- the pub / pub(crate) functions that probe a content-bearing index of an element collection (B-tree filters, BM25) for candidate ids -/")
+    A(f"def indexProbeOwners : List String := {lean_list(probe_owners)}")
+    A("")
     A("/-! ### kernel-checked facts about the tables -/")
+    A("theorem gen_raw_reads_only_in_gate : rawElementReadOwners.all (fun f => readGateFunctions.contains f) = true := by decide")
+    A("theorem gen_gate_admits_after_every_read : gateAdmitsAfterEveryRead = true := by decide")
+    A("/-- the known places where row *content* reaches candidate selection before `admit` (findings F-C19-1/2 live in the callers of")
+    A("    `candidates` and in `search`; `describe.rs::run` is the PRIMER count, taken only when `reads_whole_space`): a new one must be looked at -/")
+    A('theorem gen_index_probe_owners : indexProbeOwners = ["kql/mod.rs::active_concepts", "kql/mod.rs::candidates", "meta/describe.rs::run", "meta/inspect.rs::search"] := by decide')
     A(f"theorem gen_max_delegation_depth : maxDelegationDepth = {max_depth} := by decide")
     A("theorem gen_authorize_stage_order : authorizeStages =")
     A('    ["inactive_principal", "suspended_space", "default_classification", "deny_statements", "owner", "candidates",')
